@@ -250,7 +250,11 @@ def rule_MP4(rep, prog, g):
             continue
         class _S: pass
         s = _S(); s.block = gu.to_block; s.idx = -1; s.loc = gu.site.loc
-        res = paths.walk(fn, s, is_slow_entry)
+        c0 = paths.PathCtx(fn)
+        fb = gu.from_block
+        if fb is not None:
+            c0.pred[gu.to_block.id] = fb.id if hasattr(fb, "id") else fb   # the give-up edge: phis of the landing block take its values
+        res = paths.walk(fn, s, is_slow_entry, ctx=c0)
         for kind, inst, cx, path in res:
             if kind != "exit":
                 continue
